@@ -77,13 +77,15 @@ def main():
     st = {}
     q = a.tier == "quick"
     run_plan(chk, "rel", [("ints-exh", 16, 0), ("ints-edge", 16, 3000 if q else 65536), ("ints-rand", 16, 100000 if q else 1000000),
-                          ("oids", 16, 20000 if q else 150000), ("octets", 4, 0), ("msgs", 16, 5000 if q else 50000)], a.seed, st)
+                          ("oids", 16, 20000 if q else 150000), ("octets", 4, 0), ("msgs", 16, 5000 if q else 50000),
+                          ("priv", 16, 1500 if q else 30000)], a.seed, st)
     run_plan(chk, "dbg", [("ints-edge", 16, 300 if q else 65536), ("ints-rand", 16, 20000 if q else 300000), ("oids", 8, 5000 if q else 50000),
-                          ("octets", 4, 0), ("msgs", 16, 1000 if q else 20000)] + ([] if q else [("ints-exh", 16, 0)]), a.seed, st)
+                          ("octets", 4, 0), ("msgs", 16, 1000 if q else 20000), ("priv", 8, 300 if q else 5000)] + ([] if q else [("ints-exh", 16, 0)]), a.seed, st)
     run_plan(chk, "asan", [("ints-edge", 8, 100 if q else 2000), ("ints-rand", 8, 5000 if q else 100000), ("oids", 8, 2000 if q else 30000),
-                           ("octets", 8, 0), ("msgs", 8, 500 if q else 10000)], a.seed, st)
+                           ("octets", 8, 0), ("msgs", 8, 500 if q else 10000), ("priv", 8, 200 if q else 4000)], a.seed, st)
     run_plan(chk, "miri", [("ints-edge", 4, 1 if q else 8), ("ints-rand", 2, 60 if q else 600), ("oids", 2, 30 if q else 300),
-                           ("octets", 1000, 0, [1, 127] if q else [1, 55, 127, 128, 255, 256, 999]), ("msgs", 4, 12 if q else 120)], a.seed, st)
+                           ("octets", 1000, 0, [1, 127] if q else [1, 55, 127, 128, 255, 256, 999]), ("msgs", 4, 12 if q else 120),
+                           ("priv", 2, 6 if q else 60)], a.seed, st)
     chk.extra["cases_by_build_and_mode"] = st
     chk.extra["exhaustive_part"] = "INTEGER -2^23..2^23-1 (every value of 1..3 content octets)"
     chk.floor("exhaustive_ints", st.get("rel", {}).get("ints-exh", 0), 1 << 24)
